@@ -1,4 +1,155 @@
-import GristModel.DocSpec
+/-
+C08  Internal schema always matches the metadata.
+
+Model: GristModel/SchemaMeta.lean (`metaSchema` = schema.build_schema over the `_grist_Tables` /
+`_grist_Tables_column` tables of the document, `userSchema` / `userTable?` = engine.schema,
+`SchemaConsistent` = Engine.assert_schema_consistent, `schemaConsistentB` its decision procedure).
+Proofs: GristProofs/SchemaMeta*.lean.
+
+Delivered here: the decision procedure is correct; `SchemaConsistent` only depends on what `Same`
+preserves (so a rollback, C04, restores it); record actions that do not touch the schema-bearing
+metadata fields preserve it.  The paired steps (AddColumn + AddRecord, ...) are NOT proved here.
+-/
+import GristProps.C04
+import GristProofs.SchemaMetaNeutral
+import GristProofs.SchemaMetaDecide
 namespace Grist.Doc
-theorem placeholder_C08 : True := trivial
+
+/-- the Bool check evaluated by the driver decides the property -/
+theorem schemaConsistentB_correct (d : Doc) : schemaConsistentB d = true ↔ SchemaConsistent d :=
+  schemaConsistentB_iff d
+
+/-- `SchemaConsistent` is invariant under observational equality (no well-formedness needed: it
+    reads the schema through `findTable?` / `findCol?` and the metadata cells at existing rows) -/
+theorem schemaConsistent_same_invariant {d d' : Doc} (h : Same d d') :
+    SchemaConsistent d ↔ SchemaConsistent d' :=
+  ⟨schemaConsistent_of_same h, schemaConsistent_of_same h.symm⟩
+
+theorem metaSchema_same_invariant {d d' : Doc} (h : Same d d') : metaSchema d = metaSchema d' :=
+  metaSchema_congr h.metaAgree
+
+/-- Record actions on tables other than the two metadata tables (BulkAddRecord, BulkRemoveRecord,
+    BulkUpdateRecord, ReplaceTableData), and BulkUpdateRecord on `_grist_Tables` /
+    `_grist_Tables_column` that does not name a schema-bearing field (`tableId`; `parentId`, `colId`,
+    `type`, `isFormula`, `formula`, `reverseCol`), preserve consistency (`DocAction.neutral`). -/
+theorem neutral_step_consistent {d : Doc} {s : Summary} {a : DocAction} {r : DAResult} (hwf : WF d)
+    (hne : a.neutral) (hc : SchemaConsistent d) (h : docAction d s a = .ok r) :
+    SchemaConsistent r.doc :=
+  post_neutral hwf hne hc (post_of_ok h)
+
+theorem neutral_steps_consistent {as : List DocAction} {d d' : Doc} {u : List DocAction}
+    (hwf : WF d) (hargs : ∀ a ∈ as, a.rowsPositive) (hne : ∀ a ∈ as, a.neutral)
+    (hc : SchemaConsistent d) (h : runActs d as = .ok (d', u)) : SchemaConsistent d' := by
+  induction as generalizing d u with
+  | nil =>
+    simp only [runActs, Except.ok.injEq, Prod.mk.injEq] at h
+    obtain ⟨rfl, rfl⟩ := h; exact hc
+  | cons a rest ih =>
+    obtain ⟨r, u', hr, hrest, rfl⟩ := runActs_cons_ok h
+    have ha := hne a (by simp)
+    have hcd : a.colsDistinct := by cases a <;> first | trivial | exact ha.elim
+    have hwf' := docAction_WF_partial hwf (hargs a (by simp)) hcd hr
+    exact ih hwf' (fun b hb => hargs b (List.mem_cons_of_mem _ hb))
+      (fun b hb => hne b (List.mem_cons_of_mem _ hb)) (neutral_step_consistent hwf ha hc hr) hrest
+
+/-- corollary of C04: after a rollback to a checkpoint the schema is as consistent as it was at
+    the checkpoint, whatever the rolled-back steps did to it -/
+theorem rollback_schema_consistent {st st' : EState} {steps : List (DocAction × Bool)}
+    (hwf : WF st.doc) (hn : Normal st.doc) (hlen : st.stored.length = st.direct.length)
+    (hargs : ∀ ab ∈ steps, ab.1.rowsPositive ∧ ab.1.colsDistinct)
+    (hex : undoExactRun st.doc (steps.map (·.1)))
+    (hc : SchemaConsistent st.doc)
+    (h : stepDocs st steps = .ok st') :
+    ∃ st'', rollback st' st.stored.length st.undo.length = .ok st'' ∧ SchemaConsistent st''.doc ∧
+      metaSchema st''.doc = metaSchema st.doc := by
+  obtain ⟨st'', h1, h2, _⟩ := C04.rollback_restores hwf hn hlen hargs hex h
+  exact ⟨st'', h1, schemaConsistent_of_same h2.symm hc, metaSchema_same_invariant h2⟩
+
+/-! ### a concrete document with metadata: user table `T` with columns `A`, `B` -/
+
+def mInfo (ty : String) : ColInfo := { type := ty, isFormula := false, formula := "", reverseColId := none }
+
+def exMetaDoc : Doc :=
+  [ { id := "_grist_Tables", rows := [1],
+      cols := [{ id := "tableId", info := mInfo "Text",
+                 cells := fun r => if r = 1 then .str "T" else typeDefault "Text" }] },
+    { id := "_grist_Tables_column", rows := [1, 2],
+      cols := [
+        { id := "parentId", info := mInfo "Ref:_grist_Tables",
+          cells := fun r => if r = 1 then .int 1 else if r = 2 then .int 1
+                            else typeDefault "Ref:_grist_Tables" },
+        { id := "colId", info := mInfo "Text",
+          cells := fun r => if r = 1 then .str "A" else if r = 2 then .str "B" else typeDefault "Text" },
+        { id := "type", info := mInfo "Text",
+          cells := fun r => if r = 1 then .str "Text" else if r = 2 then .str "Text"
+                            else typeDefault "Text" },
+        { id := "isFormula", info := mInfo "Bool",
+          cells := fun r => if r = 1 then .bool false else if r = 2 then .bool false
+                            else typeDefault "Bool" },
+        { id := "formula", info := mInfo "Text",
+          cells := fun r => if r = 1 then .str "" else if r = 2 then .str "" else typeDefault "Text" },
+        { id := "label", info := mInfo "Text",
+          cells := fun r => if r = 1 then .str "A" else if r = 2 then .str "B" else typeDefault "Text" } ] },
+    { id := "T", rows := [1],
+      cols := [{ id := "A", info := mInfo "Text",
+                 cells := fun r => if r = 1 then .str "x" else typeDefault "Text" },
+               { id := "B", info := mInfo "Text",
+                 cells := fun r => if r = 1 then .str "y" else typeDefault "Text" }] } ]
+
+example : metaSchema exMetaDoc = [("T", [("A", mInfo "Text"), ("B", mInfo "Text")])] := by decide
+example : userSchema exMetaDoc = [("T", [("A", mInfo "Text"), ("B", mInfo "Text")])] := by decide
+
+theorem exMetaDoc_consistent : SchemaConsistent exMetaDoc :=
+  (schemaConsistentB_correct _).1 (by decide)
+
+theorem exMetaDoc_WF : WF exMetaDoc := by
+  refine ⟨by decide, ?_⟩
+  intro tb htb
+  simp only [exMetaDoc, List.mem_cons, List.not_mem_nil, or_false] at htb
+  rcases htb with rfl | rfl | rfl
+  · refine ⟨by decide, by simp, by simp, ?_⟩
+    intro col hcol r hr
+    have h1 : r ≠ 1 := by intro h; subst h; simp at hr
+    simp only [List.mem_cons, List.not_mem_nil, or_false] at hcol
+    subst hcol
+    simp [h1, mInfo]
+  · refine ⟨by decide, by simp, by simp, ?_⟩
+    intro col hcol r hr
+    have h1 : r ≠ 1 := by intro h; subst h; simp at hr
+    have h2 : r ≠ 2 := by intro h; subst h; simp at hr
+    simp only [List.mem_cons, List.not_mem_nil, or_false] at hcol
+    rcases hcol with rfl | rfl | rfl | rfl | rfl | rfl <;> simp [h1, h2, mInfo]
+  · refine ⟨by decide, by simp, by simp, ?_⟩
+    intro col hcol r hr
+    have h1 : r ≠ 1 := by intro h; subst h; simp at hr
+    simp only [List.mem_cons, List.not_mem_nil, or_false] at hcol
+    rcases hcol with rfl | rfl <;> simp [h1, mInfo]
+
+def exNeutralActs : List DocAction :=
+  [.bulkUpdate "T" [1] [("A", [.str "q"])], .bulkAdd "T" [2] [("B", [.str "z"])],
+   .bulkUpdate "_grist_Tables_column" [2] [("label", [.str "Bee"])]]
+
+/-- neutral steps on the example: data actions on `T`, and a `label` update of a column record -/
+example : ∃ d' u, runActs exMetaDoc exNeutralActs = .ok (d', u) ∧ SchemaConsistent d' := by
+  have h : runActs exMetaDoc exNeutralActs = .ok (_, _) := rfl
+  refine ⟨_, _, h, ?_⟩
+  apply neutral_steps_consistent (as := exNeutralActs) exMetaDoc_WF _ _ exMetaDoc_consistent h
+  · intro a ha
+    simp only [exNeutralActs, List.mem_cons, List.not_mem_nil, or_false] at ha
+    rcases ha with rfl | rfl | rfl <;> simp [DocAction.rowsPositive]
+  · intro a ha
+    simp only [exNeutralActs, List.mem_cons, List.not_mem_nil, or_false] at ha
+    rcases ha with rfl | rfl | rfl
+    · exact ⟨fun h => absurd h (by decide), fun h => absurd h (by decide)⟩
+    · exact ⟨by decide, by decide⟩
+    · refine ⟨fun h => absurd h (by decide), fun _ cv hcv => ?_⟩
+      simp only [List.mem_singleton] at hcv
+      subst hcv
+      decide
+
+/-- dropping a column record makes it inconsistent: the check is not vacuous -/
+example : ¬ SchemaConsistent
+    (exMetaDoc.map (fun tb => if tb.id == "_grist_Tables_column" then { tb with rows := [1] } else tb)) :=
+  fun h => absurd ((schemaConsistentB_correct _).2 h) (by decide)
+
 end Grist.Doc
